@@ -3,6 +3,7 @@ import sys
 from harness import common
 from symrun import loader
 loader.install()
+from harness.composed import payload  # noqa: E402
 from harness.explore import Explore, make_jobs, make_random_jobs  # noqa: E402
 
 CONFIGS = {
@@ -57,7 +58,7 @@ class LossExplore(Explore):
                             out.append(("key exchange did not complete after connectivity returned", "%s lacks %s: %r (N=%s M=%s K=%s)" % (
                                 c.name, t, tags, c.state("N"), c.state("M"), c.state("SK"))))
                     got = [e[1] for e in c.ev if e[0] == "message"]
-                    sent = [b"msg-%s-%d" % ("AB"[1 - i].encode(), n) for n in range(sim.api[1 - i]["sent"])]
+                    sent = [payload("AB"[1 - i], n) for n in range(sim.api[1 - i]["sent"])]
                     if got != sent:
                         out.append(("send_message() lost or repeated across reconnects", "%s got %r, peer sent %r" % (c.name, got, sent)))
         return out
@@ -66,8 +67,16 @@ class LossExplore(Explore):
         return label.split(":")[0]
 
 
+class LongSession(LossExplore):
+    """a long session (more than 16 messages in one direction, so that any bounded bookkeeping of seen phases/messages would roll over): one or two
+    connection losses at every point of the honest run, nothing else"""
+    configs = {"set-set-long": dict(modes=("set", "set"), nmsg=(20, 1), max_opens=4, canon="burst")}
+    allowed = {"drop", "open"}
+
+
 def jobs(tier):
-    return make_jobs(LossExplore, tier, 3, 4, stepq=8, stept=6) + make_random_jobs(LossExplore, tier)
+    return (make_jobs(LossExplore, tier, 3, 4, stepq=8, stept=6) + make_random_jobs(LossExplore, tier) +
+            make_jobs(LongSession, tier, 2, 3, stepq=12, stept=8))
 
 
 ASSUMPTIONS = [
